@@ -44,7 +44,11 @@ func LockMatrix() {
 				nrw++
 			}
 		}
-		switch vrt.Choose("op", 6) {
+		opName := "op"
+		if k == 0 {
+			opName = "op0" // the first step is a shape variable (one worker per value)
+		}
+		switch vrt.Choose(opName, 6) {
 		case 0: // open read-write
 			if free < 0 {
 				vrt.Assume(false)
